@@ -45,7 +45,7 @@ where
         debug_assert!(val.is_finite(), "value must be finite");
 
         if self.out.is_none() {
-            self.out = Some(val);
+            self.out = Some(T::zero());
         }
 
         if self.q_vals.len() >= self.window_len {
